@@ -212,6 +212,7 @@ func TestWorker(t *testing.T) {
 			deadline = time.Now().Add(time.Duration(s) * time.Second)
 		}
 		nviol := 0
+		rlog := newRaceLogReader()
 		var curPlan *Plan
 		OnPoisoned = func(res *RunResult) {
 			rec := RunRecord{Seed: res.Plan.Seed, Class: res.Plan.Class, End: res.Stats.EndReason, Steps: res.Stats.Steps, TaskSteps: res.Stats.TaskSteps,
@@ -255,6 +256,15 @@ func TestWorker(t *testing.T) {
 			rec := RunRecord{Seed: seed, Class: plan.Class, End: res.Stats.EndReason, Steps: res.Stats.Steps, TaskSteps: res.Stats.TaskSteps,
 				SimTimeNs: int64(res.Stats.SimTime), Cmds: res.Stats.Cmds, Replies: res.Stats.Replies,
 				SchedFp: fmt.Sprintf("%016x", res.Stats.SchedFp), Faults: res.Stats.Faults, Probes: res.Stats.Probes, Extra: res.Extra}
+			if pd.race {
+				if txt := rlog.next(); txt != "" {
+					for _, rr := range parseRaceLog(txt) {
+						if rr.ours && res.Viol == nil {
+							res.Viol = &Violation{Oracle: "race", Fp: rr.fp, Msg: rr.text, Step: res.Stats.Steps}
+						}
+					}
+				}
+			}
 			rec.Nontrivial = res.Viol == nil && pd.nontrivial != nil && pd.nontrivial(res)
 			if res.Viol != nil {
 				rec.Viol = res.Viol
@@ -295,7 +305,15 @@ func TestWorker(t *testing.T) {
 		if rf.Tape == nil && rf.Viol != nil && rf.Viol.Oracle == "process-death" {
 			tp = newTape(rf.Seed)
 		}
+		rlog := newRaceLogReader()
 		res := runProp(t, pd, rf.Plan, tp, true)
+		if pd.race {
+			for _, rr := range parseRaceLog(rlog.next()) {
+				if rr.ours && (res.Viol == nil || rr.fp == rf.Viol.Fp) {
+					res.Viol = &Violation{Oracle: "race", Fp: rr.fp, Msg: rr.text, Step: res.Stats.Steps}
+				}
+			}
+		}
 		report(res)
 		if os.Getenv("VS_VERBOSE") != "" {
 			for _, l := range res.Log {
@@ -317,7 +335,7 @@ func TestWorker(t *testing.T) {
 			budget = 600
 		}
 		run := inProcessRunner(t, pd)
-		wedging := rf.Viol.Oracle == "livelock" || rf.Viol.Oracle == "deadlock"
+		wedging := rf.Viol.Oracle == "livelock" || rf.Viol.Oracle == "deadlock" || pd.race
 		if wedging {
 			// a failing candidate wedges its process: one child process per candidate
 			if budget > 120 {
